@@ -383,3 +383,160 @@ func TestC06Big(t *testing.T) {
 		}
 	}
 }
+
+// SeqCase: a program of two commands (or one command over the same file twice) run
+// through RunFiles. The commands work one after the other: in OVERWRITE mode the
+// second sees the file the first wrote, in NEW mode both read the unchanged file and
+// the second result replaces the first <file>.vored.
+type SeqCase struct {
+	Cmd1    string `json:"cmd1"`
+	Cmd2    string `json:"cmd2"` // "" = Cmd1 once, with the file listed twice
+	Content string `json:"content"`
+	Mode    string `json:"mode"`
+}
+
+// runOne runs one command on a file holding content and returns the matches and
+// the final content of the file and of its .vored (or "" when absent).
+func runOne(src string, content string, mode string, listTwice bool) (recs []MatchRec, file string, vored string, hasVored bool, sig string, discard bool) {
+	dir, err := os.MkdirTemp(scratchDir(), "c06s-")
+	if err != nil {
+		panic(err)
+	}
+	defer os.RemoveAll(dir)
+	path := filepath.Join(dir, "input.txt")
+	os.WriteFile(path, []byte(content), 0o644)
+	v, cerr, p := CompileSafe(src)
+	if p != nil || cerr != nil {
+		return nil, "", "", false, "compile-error", false
+	}
+	paths := []string{path}
+	if listTwice {
+		paths = append(paths, path)
+	}
+	res := RunFilesSafe(v, paths, modeOf(mode), vmLimitFile)
+	if res.OverBudget {
+		return nil, "", "", false, "", true
+	}
+	if res.Panic != nil {
+		return nil, "", "", false, res.Panic.Sig(), false
+	}
+	recs = RecsOf(res.Matches)
+	for i := range recs {
+		recs[i].Filename = ""
+	}
+	fb, _ := os.ReadFile(path)
+	vb, verr := os.ReadFile(path + ".vored")
+	return recs, string(fb), string(vb), verr == nil, "", false
+}
+
+func checkSeqCase(c SeqCase) (sig, what string, discard bool) {
+	combined := c.Cmd1 + " " + c.Cmd2
+	twice := c.Cmd2 == ""
+	if twice {
+		combined = c.Cmd1
+	}
+	got, gotFile, gotVored, gotHas, sig, discard := runOne(combined, c.Content, c.Mode, twice)
+	if discard {
+		return "", "", true
+	}
+	if sig != "" {
+		return sig, fmt.Sprintf("%s on %s in mode %s: %s", combined, clip(c.Content), c.Mode, sig), false
+	}
+	// the same work, one call per step
+	m1, f1, v1, h1, s1, d1 := runOne(c.Cmd1, c.Content, c.Mode, false)
+	second := c.Cmd2
+	if twice {
+		second = c.Cmd1
+	}
+	input2 := c.Content
+	if c.Mode == "OVERWRITE" {
+		input2 = f1
+	}
+	m2, f2, v2, h2, s2, d2 := runOne(second, input2, c.Mode, false)
+	if d1 || d2 {
+		return "", "", true
+	}
+	if s1 != "" || s2 != "" {
+		return "", "", true // a step that fails alone is C09's business
+	}
+	if !h2 {
+		// the second step wrote no .vored (a find command, mode NOTHING / OVERWRITE):
+		// what the first step left stays
+		v2, h2 = v1, h1
+	}
+	desc := fmt.Sprintf("%s on %s in mode %s", combined, clip(c.Content), c.Mode)
+	if twice {
+		desc = fmt.Sprintf("%s on the same file listed twice, %s, mode %s", c.Cmd1, clip(c.Content), c.Mode)
+	}
+	want := append(append([]MatchRec{}, m1...), m2...)
+	if !recsEqual(got, want) {
+		return "sequence-matches", fmt.Sprintf("%s: matches %s, but the steps taken one by one give %s", desc, fmtRecs(got), fmtRecs(want)), false
+	}
+	if gotFile != f2 {
+		return "sequence-file", fmt.Sprintf("%s: the file holds %s, the steps taken one by one leave %s", desc, clip(gotFile), clip(f2)), false
+	}
+	if gotHas != h2 || gotVored != v2 {
+		return "sequence-vored", fmt.Sprintf("%s: the .vored file holds %s (present %v), the steps taken one by one leave %s (present %v)", desc, clip(gotVored), gotHas, clip(v2), h2), false
+	}
+	return "", "", false
+}
+
+func init() {
+	registerReplay("fileseq", func(raw json.RawMessage) (string, string) {
+		var c SeqCase
+		if err := json.Unmarshal(raw, &c); err != nil {
+			return "bad-replay-file", err.Error()
+		}
+		sig, what, _ := checkSeqCase(c)
+		return sig, what
+	})
+}
+
+// TestC06Seq: two commands in one program, or one command over the same file
+// listed twice, against the same steps taken in separate calls (each of which the
+// splice oracle of the main part decides).
+func TestC06Seq(t *testing.T) {
+	seedNote(t)
+	StartWatchdog("C06", 120*time.Second)
+	st := NewStats("C06", "sequence", "two find / replace commands in one program (or one command with the file listed twice) x file content x {NOTHING, NEW, OVERWRITE}; oracle: the same steps taken in separate RunFiles calls - in OVERWRITE mode the second step on the file the first one left - give the same matches, file and .vored; non-trivial = OVERWRITE with a first step that changes the file and a second step with >= 1 match; distinct by the whole case")
+	defer st.Write()
+	rapid.Check(t, func(t *rapid.T) {
+		gen := func(label string) (string, string) {
+			body := rapid.SampledFrom(fileBodies).Draw(t, label+"body")
+			if rapid.IntRange(0, 4).Draw(t, label+"find") == 0 {
+				return "find " + strings.Join(genAmount(t), " ") + " " + body, body
+			}
+			return "replace " + strings.Join(genAmount(t), " ") + " " + body + " with " + rapid.SampledFrom(fileWith).Draw(t, label+"with"), body
+		}
+		cmd1, body1 := gen("a")
+		c := SeqCase{Cmd1: cmd1, Mode: rapid.SampledFrom([]string{"NOTHING", "NEW", "OVERWRITE", "OVERWRITE"}).Draw(t, "mode")}
+		if rapid.IntRange(0, 3).Draw(t, "twice") != 0 {
+			c.Cmd2, _ = gen("b")
+		}
+		c.Content = genContent(t, fileBodyHit[body1])
+		if len(c.Content) > 6000 {
+			c.Content = c.Content[:6000]
+		}
+		st.Eval()
+		SetInflight(func() string { return jsonStr(Failure{Property: "C06", Kind: "fileseq", Case: c}) })
+		sig, what, discard := checkSeqCase(c)
+		ClearInflight()
+		if discard {
+			st.Count("discarded")
+			return
+		}
+		if sig == "compile-error" {
+			t.Fatalf("HARNESS: does not compile: %s", what)
+		}
+		if sig != "" {
+			Fail(t, Failure{Property: "C06", Kind: "fileseq", What: what, Case: c, Sig: sig})
+		}
+		st.Count("mode_" + c.Mode)
+		if c.Cmd2 == "" {
+			st.Count("same_file_twice")
+		}
+		if c.Mode == "OVERWRITE" && strings.HasPrefix(c.Cmd1, "replace") {
+			st.NonTrivial(jsonStr(c), func() any { return c })
+		}
+	})
+}
